@@ -3,7 +3,8 @@
 name=$1; shift
 dst=/verif/seeded/$name
 cd /verif
-git -C /repo apply $dst/patch.diff || { echo "cannot apply"; exit 2; }
+git -C /repo apply $dst/patch.diff 2>/dev/null || git -C /repo apply -C1 $dst/patch.diff 2>/dev/null || (cd /repo && patch -p1 -s -F3 --no-backup-if-mismatch < $dst/patch.diff) || { echo "cannot apply"; git -C /repo checkout -- .; exit 2; }
+(cd /repo && GOFLAGS=-mod=mod GOPROXY=off go build ./... ) || { echo "does not build"; git -C /repo checkout -- .; exit 2; }
 results=""
 for p in "$@"; do
   /verif/bin/gosym check $p --tier quick > $dst/check_$p.log 2>&1; rc=$?
